@@ -119,13 +119,13 @@ type expectation struct {
 
 type model struct {
 	onceSelfUnsub bool // a claimed Once registration was unsubscribed during its publish
-	c       *Case
-	regs    map[int][]*reg
-	stack   []hkey
-	ran     map[hkey]bool
-	scripts map[hkey][]Op
-	seqKeys map[hkey]bool
-	exp     *expectation
+	c             *Case
+	regs          map[int][]*reg
+	stack         []hkey
+	ran           map[hkey]bool
+	scripts       map[hkey][]Op
+	seqKeys       map[hkey]bool
+	exp           *expectation
 	// classification
 	nestedRan, removalThenPub, shardShare, delivered bool
 	removed                                          map[int]bool
